@@ -406,3 +406,7 @@ Fixpoint tree_of_ssa (forest : list tree) (path : list (nat * nat)) : list tree 
   end.
 Definition ssa_tree (n : nat) (path : list (nat * nat)) : tree :=
   last (tree_of_ssa (map Leaf (seq 0 n)) path) (Leaf 0).
+
+(* executable check that a tree uses every tensor 0..n-1 exactly once (sound: OptimalFacts.full_treeb_sound) *)
+Definition full_treeb (n : nat) (t : tree) : bool :=
+  Nat.eqb (length (leaves t)) n && forallb (fun i => memb i (leaves t)) (seq 0 n).
